@@ -210,6 +210,8 @@ def brackets(in_file, in_encoding, **params):
                     # happens when root label is empty (PTB style)
                     level += 1
                     queue[-1].data['label'] = trees.DEFAULT_ROOT
+                    queue[-1].data['edge'] = trees.DEFAULT_EDGE
+                    queue[-1].data['morph'] = trees.DEFAULT_MORPH
                     queue.append(trees.Tree(trees.make_node_data()))
                     state = 1
                 elif state == 1:
